@@ -171,6 +171,14 @@ func TestC03Font(t *testing.T) {
 	rapid.Check(t, func(t *rapid.T) {
 		c := genfont.Gen(o).Draw(t, "font")
 		f := c.Font
+		if go_, ok := f.Outlines.(*glyf.Outlines); ok && len(go_.Names) > 2 && rapid.IntRange(0, 5).Draw(t, "trailingUnnamed") == 0 {
+			// the last glyphs of the font have no name (the post table still
+			// has an entry for every glyph)
+			for k := rapid.IntRange(1, min(3, len(go_.Names)-2)).Draw(t, "nUnnamed"); k > 0; k-- {
+				go_.Names[len(go_.Names)-k] = ""
+			}
+			c.Labels = append(c.Labels, "tt-trailing-glyphs-unnamed")
+		}
 		variant := rapid.IntRange(0, 2).Draw(t, "writer")
 		var buf bytes.Buffer
 		var err error
